@@ -1,5 +1,8 @@
 import SFV.Model.PhaseSpace
 import Mathlib.Tactic.Ring
+import Mathlib.Algebra.BigOperators.Group.Finset.Basic
+import Mathlib.Algebra.BigOperators.Group.Finset.Piecewise
+import Mathlib.Algebra.BigOperators.Ring.Finset
 import Mathlib.Algebra.Ring.Defs
 
 /-! Lemmas for K3: every entrywise update of the Gaussian simulator refines the congruence
@@ -489,5 +492,208 @@ theorem loss_zero_resets (st : GS K) (k j : Nat) :
     (loss st 0 k).N k j = 0 ∧ (loss st 0 k).N j k = 0 ∧ (loss st 0 k).M k j = 0 ∧ (loss st 0 k).M j k = 0 ∧
     (loss st 0 k).mean k = 0 := by
   refine ⟨?_, ?_, ?_, ?_, ?_⟩ <;> by_cases hj : j = k <;> apply Cx.ext' <;> simp [loss, writeRowCol, hj]
+
+/-! ### natively applied multi-mode operations: `fromscovmat`/`fromsmean`, `apply_u` -/
+
+theorem loss_zero_N (st : GS K) (k i j : Nat) :
+    (loss st 0 k).N i j = if i = k ∨ j = k then 0 else st.N i j := by
+  by_cases hi : i = k <;> by_cases hj : j = k <;> apply Cx.ext' <;> simp [loss, writeRowCol, hi, hj]
+
+theorem loss_zero_M (st : GS K) (k i j : Nat) :
+    (loss st 0 k).M i j = if i = k ∨ j = k then 0 else st.M i j := by
+  by_cases hi : i = k <;> by_cases hj : j = k <;> apply Cx.ext' <;> simp [loss, writeRowCol, hi, hj]
+
+theorem loss_zero_mean (st : GS K) (k i : Nat) :
+    (loss st 0 k).mean i = if i = k then 0 else st.mean i := by
+  by_cases hi : i = k <;> apply Cx.ext' <;> simp [loss, writeRowCol, hi]
+
+theorem foldl_loss_N (modes : List Nat) (st : GS K) (i j : Nat) :
+    (modes.foldl (fun s m => loss s 0 m) st).N i j = if i ∈ modes ∨ j ∈ modes then 0 else st.N i j := by
+  induction modes generalizing st with
+  | nil => simp
+  | cons m ms ih =>
+    simp only [List.foldl_cons, ih, loss_zero_N, List.mem_cons]
+    by_cases h1 : i ∈ ms ∨ j ∈ ms
+    · have : (i = m ∨ i ∈ ms) ∨ (j = m ∨ j ∈ ms) := by rcases h1 with h | h <;> simp [h]
+      simp [h1, this]
+    · simp only [h1, if_false]
+      by_cases h2 : i = m ∨ j = m
+      · have : (i = m ∨ i ∈ ms) ∨ (j = m ∨ j ∈ ms) := by rcases h2 with h | h <;> simp [h]
+        simp [h2, this]
+      · have : ¬ ((i = m ∨ i ∈ ms) ∨ (j = m ∨ j ∈ ms)) := by
+          simp only [not_or] at h1 h2 ⊢; exact ⟨⟨h2.1, h1.1⟩, ⟨h2.2, h1.2⟩⟩
+        simp [h2, this]
+
+theorem foldl_loss_M (modes : List Nat) (st : GS K) (i j : Nat) :
+    (modes.foldl (fun s m => loss s 0 m) st).M i j = if i ∈ modes ∨ j ∈ modes then 0 else st.M i j := by
+  induction modes generalizing st with
+  | nil => simp
+  | cons m ms ih =>
+    simp only [List.foldl_cons, ih, loss_zero_M, List.mem_cons]
+    by_cases h1 : i ∈ ms ∨ j ∈ ms
+    · have : (i = m ∨ i ∈ ms) ∨ (j = m ∨ j ∈ ms) := by rcases h1 with h | h <;> simp [h]
+      simp [h1, this]
+    · simp only [h1, if_false]
+      by_cases h2 : i = m ∨ j = m
+      · have : (i = m ∨ i ∈ ms) ∨ (j = m ∨ j ∈ ms) := by rcases h2 with h | h <;> simp [h]
+        simp [h2, this]
+      · have : ¬ ((i = m ∨ i ∈ ms) ∨ (j = m ∨ j ∈ ms)) := by
+          simp only [not_or] at h1 h2 ⊢; exact ⟨⟨h2.1, h1.1⟩, ⟨h2.2, h1.2⟩⟩
+        simp [h2, this]
+
+theorem foldl_loss_mean (modes : List Nat) (st : GS K) (i : Nat) :
+    (modes.foldl (fun s m => loss s 0 m) st).mean i = if i ∈ modes then 0 else st.mean i := by
+  induction modes generalizing st with
+  | nil => simp
+  | cons m ms ih =>
+    simp only [List.foldl_cons, ih, loss_zero_mean, List.mem_cons]
+    by_cases h1 : i ∈ ms <;> by_cases h2 : i = m <;> simp [h1, h2]
+
+theorem posIn_some {modes : List Nat} {i a : Nat} (h : posIn modes i = some a) :
+    i ∈ modes ∧ a = modes.idxOf i := by
+  unfold posIn at h
+  split at h
+  · rename_i hc; exact ⟨by simpa using hc, by cases h; rfl⟩
+  · cases h
+
+theorem posIn_none {modes : List Nat} {i : Nat} (h : ¬ i ∈ modes) : posIn modes i = none := by
+  simp [posIn, h]
+
+theorem posIn_getElem {modes : List Nat} (hnd : modes.Nodup) {a : Nat} (ha : a < modes.length) :
+    posIn modes modes[a] = some a := by
+  simp [posIn, List.getElem_mem ha, hnd.idxOf_getElem a ha]
+
+/-- **`prepare_gaussian_state` post-state**: on the listed modes, in the listed order, the quadrature
+covariance and means are exactly the given `(V, r)` (for symmetric `V_xx`, `V_pp`) -/
+theorem fromCov_poststate (st : GS K) (quarter half : K) (hq : quarter * (1 + 1 + 1 + 1) = 1)
+    (hh : half * (1 + 1) = 1) (modes : List Nat) (hnd : modes.Nodup)
+    (A B C : Nat → Nat → K) (rx rp : Nat → K) (hA : ∀ a b, A a b = A b a) (hC : ∀ a b, C a b = C b a)
+    {a b : Nat} (ha : a < modes.length) (hb : b < modes.length) :
+    let st' := fromCov st quarter half modes A B C rx rp
+    Vxx st' modes[a] modes[b] = A a b ∧ Vxp st' modes[a] modes[b] = B a b ∧
+    Vpp st' modes[a] modes[b] = C a b ∧ meanX st' modes[a] = rx a ∧ meanP st' modes[a] = rp a := by
+  intro st'
+  have pa := posIn_getElem hnd ha
+  have pb := posIn_getElem hnd hb
+  have hab : modes[a] = modes[b] ↔ a = b := List.getElem_inj hnd
+  refine ⟨?_, ?_, ?_, ?_, ?_⟩
+  · simp only [st', Vxx, fromCov, pa, pb, hab]
+    by_cases h : a = b
+    · subst h; simp; grind
+    · simp [h, Ne.symm h]; have := hA a b; have := hC a b; grind
+  · simp only [st', Vxp, fromCov, pa, pb]
+    simp; grind
+  · simp only [st', Vpp, fromCov, pa, pb, hab]
+    by_cases h : a = b
+    · subst h; simp; grind
+    · simp [h, Ne.symm h]; have := hA a b; have := hC a b; grind
+  · simp only [st', meanX, fromCov, pa]; grind
+  · simp only [st', meanP, fromCov, pa]; grind
+
+/-- … the prepared modes are uncorrelated with every other mode … -/
+theorem fromCov_uncorrelated (st : GS K) (quarter half : K) (modes : List Nat)
+    (A B C : Nat → Nat → K) (rx rp : Nat → K) {i j : Nat} (hi : i ∈ modes) (hj : ¬ j ∈ modes) :
+    let st' := fromCov st quarter half modes A B C rx rp
+    st'.N i j = 0 ∧ st'.N j i = 0 ∧ st'.M i j = 0 ∧ st'.M j i = 0 := by
+  intro st'
+  have pj := posIn_none hj
+  refine ⟨?_, ?_, ?_, ?_⟩ <;> simp only [st', fromCov, pj]
+  · cases posIn modes i <;> simp [foldl_loss_N, hi]
+  · simp [foldl_loss_N, hi]
+  · cases posIn modes i <;> simp [foldl_loss_M, hi]
+  · simp [foldl_loss_M, hi]
+
+/-- … and all other modes keep their data -/
+theorem fromCov_local (st : GS K) (quarter half : K) (modes : List Nat)
+    (A B C : Nat → Nat → K) (rx rp : Nat → K) :
+    AgreeOff modes (fromCov st quarter half modes A B C rx rp) st := by
+  refine ⟨fun i j hi hj => ?_, fun i hi => ?_⟩
+  · simp [fromCov, posIn_none hi, foldl_loss_N, foldl_loss_M, hi, hj]
+  · simp [fromCov, posIn_none hi, foldl_loss_mean, hi]
+
+/-! ### `apply_u` / `GaussianBackend.passive` -/
+
+theorem csum_re (n : Nat) (f : Nat → Cx K) : (csum n f).re = ∑ k ∈ Finset.range n, (f k).re := by
+  induction n with
+  | zero => simp [csum]
+  | succ m ih => simp [csum, ih, Finset.sum_range_succ]
+
+theorem csum_im (n : Nat) (f : Nat → Cx K) : (csum n f).im = ∑ k ∈ Finset.range n, (f k).im := by
+  induction n with
+  | zero => simp [csum]
+  | succ m ih => simp [csum, ih, Finset.sum_range_succ]
+
+theorem csum_congr {n : Nat} {f g : Nat → Cx K} (h : ∀ k, k < n → f k = g k) : csum n f = csum n g := by
+  apply Cx.ext'
+  · rw [csum_re, csum_re]; exact Finset.sum_congr rfl fun k hk => by rw [h k (Finset.mem_range.mp hk)]
+  · rw [csum_im, csum_im]; exact Finset.sum_congr rfl fun k hk => by rw [h k (Finset.mem_range.mp hk)]
+
+theorem csum_single {n : Nat} (f : Nat → Cx K) {i : Nat} (hi : i < n) (h : ∀ k, k < n → k ≠ i → f k = 0) :
+    csum n f = f i := by
+  apply Cx.ext'
+  · rw [csum_re, Finset.sum_eq_single_of_mem i (Finset.mem_range.mpr hi)]
+    intro k hk hne; rw [h k (Finset.mem_range.mp hk) hne]; rfl
+  · rw [csum_im, Finset.sum_eq_single_of_mem i (Finset.mem_range.mpr hi)]
+    intro k hk hne; rw [h k (Finset.mem_range.mp hk) hne]; rfl
+
+theorem csum_zero {n : Nat} (f : Nat → Cx K) (h : ∀ k, k < n → f k = 0) : csum n f = 0 := by
+  apply Cx.ext'
+  · rw [csum_re]; exact Finset.sum_eq_zero fun k hk => by rw [h k (Finset.mem_range.mp hk)]; rfl
+  · rw [csum_im]; exact Finset.sum_eq_zero fun k hk => by rw [h k (Finset.mem_range.mp hk)]; rfl
+
+/-- a row of `T_expand` belonging to a mode outside the list is a unit row -/
+theorem expandT_spectator (modes : List Nat) (T : Nat → Nat → Cx K) {i : Nat} (hi : ¬ i ∈ modes) (k : Nat) :
+    expandT modes T i k = if i = k then ofK 1 else 0 := by
+  unfold expandT
+  rw [posIn_none hi]
+  cases hk : posIn modes k with
+  | none => rfl
+  | some b =>
+    have := (posIn_some hk).1
+    have : i ≠ k := fun h => hi (h ▸ this)
+    simp [this]
+
+theorem Cx.one_mul' (z : Cx K) : (ofK 1 : Cx K) * z = z := by apply Cx.ext' <;> simp
+theorem Cx.mul_one' (z : Cx K) : z * (ofK 1 : Cx K) = z := by apply Cx.ext' <;> simp
+theorem Cx.zero_mul' (z : Cx K) : (0 : Cx K) * z = 0 := by apply Cx.ext' <;> simp
+theorem Cx.mul_zero' (z : Cx K) : z * (0 : Cx K) = 0 := by apply Cx.ext' <;> simp
+theorem Cx.conj_one : conj (ofK 1 : Cx K) = ofK 1 := by apply Cx.ext' <;> simp
+theorem Cx.conj_zero : conj (0 : Cx K) = 0 := by apply Cx.ext' <;> simp
+
+/-- **`passive(T, modes)` is local**: whatever `T` is placed on the listed modes (any order), every
+`nmat`, `mmat`, `mean` entry of the other modes is unchanged -/
+theorem applyU_local (st : GS K) (modes : List Nat) (T : Nat → Nat → Cx K) :
+    ∀ i j, i < st.n → j < st.n → ¬ i ∈ modes → ¬ j ∈ modes →
+      (applyU st (expandT modes T)).N i j = st.N i j ∧ (applyU st (expandT modes T)).M i j = st.M i j ∧
+      (applyU st (expandT modes T)).mean i = st.mean i := by
+  intro i j hi hj hi' hj'
+  refine ⟨?_, ?_, ?_⟩
+  · simp only [applyU]
+    rw [csum_single _ hi]
+    · rw [csum_single _ hj]
+      · rw [expandT_spectator modes T hi', expandT_spectator modes T hj']
+        simp [Cx.conj_one, Cx.one_mul', Cx.mul_one']
+      · intro l _ hne
+        rw [expandT_spectator modes T hj' l]; simp [Ne.symm hne, Cx.mul_zero']
+    · intro k _ hne
+      apply csum_zero
+      intro l _
+      rw [expandT_spectator modes T hi' k]; simp [Ne.symm hne, Cx.conj_zero, Cx.zero_mul']
+  · simp only [applyU]
+    rw [csum_single _ hi]
+    · rw [csum_single _ hj]
+      · rw [expandT_spectator modes T hi', expandT_spectator modes T hj']
+        simp [Cx.one_mul', Cx.mul_one']
+      · intro l _ hne
+        rw [expandT_spectator modes T hj' l]; simp [Ne.symm hne, Cx.mul_zero']
+    · intro k _ hne
+      apply csum_zero
+      intro l _
+      rw [expandT_spectator modes T hi' k]; simp [Ne.symm hne, Cx.zero_mul']
+  · simp only [applyU]
+    rw [csum_single _ hi]
+    · rw [expandT_spectator modes T hi']; simp [Cx.one_mul']
+    · intro k _ hne
+      rw [expandT_spectator modes T hi' k]; simp [Ne.symm hne, Cx.zero_mul']
 
 end SFV.Gauss
